@@ -190,6 +190,23 @@ func S8(maxPacket, ops, digests, dups, holds int) *Scenario {
 	}
 }
 
+// S9: entries of different sizes: at 170 bytes two small entries fit one
+// datagram, a small and the long one do not. A delta that skips the entry that
+// does not fit and carries a later, smaller one is no longer a version prefix.
+func S9(maxPacket, ops, digests, dups, holds int) *Scenario {
+	return &Scenario{
+		Name: "S9-mixed-entry-sizes", IDs: []string{"nX", "nO"}, MaxPacket: maxPacket,
+		Init: []Event{ev("join", 1, 0)},
+		Ops: map[int][]Event{0: {
+			{Kind: "up", K: "a", V: "1"}, {Kind: "up", K: "b", V: "22222"}, {Kind: "up", K: "c", V: "1"}, {Kind: "del", K: "a"},
+		}},
+		MaxOps:  map[int]int{0: ops},
+		Digests: [][2]int{{1, 0}, {0, 1}}, MaxDigests: digests,
+		Perms: "id", MaxDups: dups, MaxInflight: 3, MaxHolds: holds,
+		Oracles: OracleSet{C02: true, C14: true},
+	}
+}
+
 // ByName rebuilds a scenario from its name and parameters (used by replay).
 type Params struct {
 	Name                                           string
@@ -219,6 +236,8 @@ func Build(p Params) *Scenario {
 		sc = S7(p.MaxPacket, p.Ops, p.Digests, p.Holds)
 	case "S8":
 		sc = S8(p.MaxPacket, p.Ops, p.Digests, p.Dups, p.Holds)
+	case "S9":
+		sc = S9(p.MaxPacket, p.Ops, p.Digests, p.Dups, p.Holds)
 	default:
 		panic("unknown scenario " + p.Name)
 	}
